@@ -263,6 +263,40 @@ def _production_case(args):
                 ch.rejuvenate()
                 out += chk(ch, "dclab.rtdc_dataset.fmt_hierarchy.events:"
                            "ChildScalar", f"child after refresh ({first})")
+        elif step in ("hierarchy-nofilter", "hierarchy-dict"):
+            # a child that keeps every event; parents whose features are
+            # plain arrays (dict dataset, temporary / computed features)
+            if step == "hierarchy-dict":
+                par_ = dclab.new_dataset({k: np.array(v) for k, v in
+                                          ev.items()})
+                par_.config["imaging"]["frame rate"] = 2000.0
+            else:
+                par_ = dclab.new_dataset(src)
+            gen.register_user_features()
+            tmp = np.array([np.nan, 2.0, 5.0, np.nan, -1.0, 3.0])
+            dclab.set_temporary_feature(par_, gen.USER_SCALAR, tmp)
+            ch = dclab.new_dataset(par_)
+            gch = dclab.new_dataset(ch)
+            fts = feats + [gen.USER_SCALAR]
+            for name, dd in (("child", ch), ("grandchild", gch)):
+                out += summary_violations(
+                    dd, fts, "dclab.rtdc_dataset.fmt_hierarchy.events:"
+                    "ChildScalar", case, tags, f"{step} {name} (no event "
+                    f"filtered out)")
+            par_.filter.manual[2] = False
+            gch.rejuvenate()
+            out += summary_violations(
+                gch, fts, "dclab.rtdc_dataset.fmt_hierarchy.events:"
+                "ChildScalar", case, tags, f"{step} grandchild after a "
+                f"filter")
+            par_.filter.manual[2] = True
+            gch.rejuvenate()
+            out += summary_violations(
+                gch, fts, "dclab.rtdc_dataset.fmt_hierarchy.events:"
+                "ChildScalar", case, tags, f"{step} grandchild after the "
+                f"filter was removed again")
+            if step != "hierarchy-dict":
+                par_.close()
         elif step in ("basin", "basin-mapped"):
             ref = d / "ref.rtdc"
             mapping = np.array([4, 1, 1, 5, 0], dtype=np.uint64)
@@ -306,7 +340,8 @@ def run(ctx):
                                        ("int", "single", "replace")]):
         viols.extend(vs)
     steps = ["compress", "repack", "condense", "export", "export-filtered",
-             "join2", "join3", "hierarchy", "basin", "basin-mapped"]
+             "join2", "join3", "hierarchy", "hierarchy-nofilter",
+             "hierarchy-dict", "basin", "basin-mapped"]
     pitems = [(s, st, nv, scratch) for s in steps for st in (True, False)
               for nv in ("none", "some", "first3")]
     for vs in par.pmap(_production_case, pitems):
@@ -317,7 +352,7 @@ def run(ctx):
         "rule": "files = (composition of N events into append calls, with "
                 "one writer or re-opened per call) x all 2^N NaN placements; "
                 "non-trivial = NaNs unevenly distributed over the parts; "
-                "plus int/single/replace and 10 production steps x stored/"
+                "plus int/single/replace and 12 production steps x stored/"
                 "stripped summaries x 3 NaN variants",
         "compositions": len(comps), "production_cases": len(pitems),
         "samples": [{"comp": list(items[0][0]), "nan": [0]},
